@@ -899,7 +899,7 @@ def suite_inflight(tier, seed, prop="C06"):
 
 
 def suites_all(tier, seed):
-    return [suite_corpus(None, "KVW"), suite_submit(tier, seed, "KVW"), suite_submit_unsigned(tier, seed, "KVW"),
+    return [suite_corpus(None, "KVW"), suite_submit(tier, seed, "KVW", n_quick=150), suite_submit_unsigned(tier, seed, "KVW", n_quick=50),
             suite_fault(tier, seed, "fault", "KVW"), suite_fault(tier, seed, "kill", "KVW"),
             suite_replace_orders(tier, seed, "KVW"), suite_delete_matrix(tier, seed, "KVW"), suite_gc(tier, seed, "KVW"),
             suite_inflight(tier, seed, "KVW"), suite_concurrent_duplicates(tier, seed, "KVW")]
@@ -962,8 +962,9 @@ def replay(payload, prop="KVW"):
 def write_witnesses():
     """(re)create the witness replays of the open findings of findings.d/KVW.txt"""
     import os
-    from .common import REPLAYS, jsonable
+    from .common import VERIF, jsonable
     install()
+    REPLAYS = os.path.join(VERIF, "findings.d", "witness")
     os.makedirs(REPLAYS, exist_ok=True)
     ev = mk(0, 1, 100, [["t", "x"]], content="witness")
     items = {
